@@ -67,7 +67,7 @@ def run_valid(spec):
 
 # ------------------------------------------------------------------------------------------------
 # (the first class is what every shard starts with - Hypothesis begins with the simplest example - so it gets the most cases)
-FAULTS = ["duct_not_smaller_than_pitch", "pins_do_not_fit", "wire_too_thick", "wire_without_pitch", "clad_too_thick", "nonpositive_dimension",
+FAULTS = ["duct_not_smaller_than_pitch", "pins_do_not_fit", "wire_too_thick", "wire_too_thick_low_fidelity", "wire_without_pitch", "clad_too_thick", "nonpositive_dimension",
           "unequal_outer_ducts", "inverted_axial_region", "overlapping_axial_regions", "missing_boundary_condition",
           "two_boundary_conditions", "unknown_coolant", "unknown_duct_material", "unknown_correlation",
           "power_wrong_item_count", "power_axial_gap", "power_not_core_length", "power_negative", "power_not_a_number",
@@ -92,6 +92,22 @@ def inject(spec, fault, mag, pick):
         a["wire_diameter"] = (a["pin_pitch"] - a["pin_diameter"]) * (1 + eps)
         if a["wire_pitch"] == 0:
             a["wire_pitch"] = 20 * a["pin_diameter"]
+    elif fault == "wire_too_thick_low_fidelity":
+        # the same impossible wire in an assembly computed with the low-fidelity model (its equivalent bundle is still built
+        # from these dimensions); the duct is loose enough for the pins to fit, so that only the wire check can object
+        if a.get("use_low_fidelity_model") is not True:
+            a["use_low_fidelity_model"] = True
+            a["low_fidelity_model"] = "simple" if pick % 2 else "6node"
+            a["convection_factor"] = "calculate"
+        if a["wire_diameter"] > 0:
+            # (pins moved together until the gap is smaller than the wire: the bundle shrinks, so it always fits)
+            a["pin_pitch"] = a["pin_diameter"] + a["wire_diameter"] / (1 + max(eps, 1e-6))
+        else:
+            a["wire_diameter"] = (a["pin_pitch"] - a["pin_diameter"]) * (1 + eps)
+            a["wire_pitch"] = 20 * a["pin_diameter"]
+        n = a["num_rings"]
+        if min(a["duct_ftf"]) < np.sqrt(3) * (n - 1) * a["pin_pitch"] + a["pin_diameter"] + 2 * a["wire_diameter"] + 1e-9:
+            return None
     elif fault == "wire_without_pitch":
         if not a["wire_diameter"] > 0:
             return None
